@@ -57,3 +57,13 @@ package fx
 //@ func (s Stream) Parallel
 //@   property C05
 //@   call Walk#0: assert sameSlice(arg_opts, opts)
+
+// Walk (behind Map, Filter, Parallel, ...) decides between the capped and the uncapped pipeline by the options alone: the
+// uncapped one runs only when unlimited workers were asked for, and the option set built from the caller's options is the one
+// handed on
+//@ func (s Stream) Walk
+//@   property C05
+//@   ghost at after buildOptions#0: o = ret
+//@   call buildOptions#0: assert sameSlice(arg_opts, opts)
+//@   call walkUnlimited#*: assert o.unlimitedWorkers && arg_option == o && arg_recv == s
+//@   call walkLimited#*: assert !o.unlimitedWorkers && arg_option == o && arg_recv == s
